@@ -128,7 +128,7 @@ unsafe fn level_swap<M: Manager>(
         // lower level, and keep the original node at the upper level (with the
         // children replaced by the newly created ones).
 
-        let grandchildren: SmallVec<[_; 2]> = children
+        let grandchildren: SmallVec<[SmallVec<[M::Edge; 2]>; 2]> = children
             .iter()
             .map(|c| {
                 // A child of a node at the old upper level can only reference
@@ -137,8 +137,9 @@ unsafe fn level_swap<M: Manager>(
                 match manager.get_node(c) {
                     Node::Inner(node) if node.level() == lower_no_pre => {
                         // We have exclusive access to the node
-                        let children: SmallVec<[_; 2]> =
-                            M::Rules::cofactors(c.tag(), node).collect();
+                        let children: SmallVec<[_; 2]> = M::Rules::cofactors(c.tag(), node)
+                            .map(|e| manager.clone_edge(&e))
+                            .collect();
                         debug_assert_eq!(children.len(), M::InnerNode::ARITY);
                         children
                     }
@@ -146,9 +147,13 @@ unsafe fn level_swap<M: Manager>(
                         // Level numbers in nodes may be stale (`_pre`), so we
                         // cannot compare against `lower_no` here.
                         debug_assert_ne!(node.level(), upper_no_pre);
-                        // The child is below the lower level, so we always have
-                        // this child
-                        (0..M::InnerNode::ARITY).map(|_| c.borrowed()).collect()
+                        // The child is below the lower level. The cofactors
+                        // with respect to the skipped level depend on the
+                        // diagram type (e.g., "don't care" for BDDs, but
+                        // zero-suppressed for ZBDDs).
+                        (0..M::InnerNode::ARITY)
+                            .map(|i| M::Rules::skipped_cofactor(manager, c, i))
+                            .collect()
                     }
                 }
             })
@@ -183,7 +188,9 @@ unsafe fn level_swap<M: Manager>(
             })
             .collect();
 
-        drop(grandchildren);
+        for edge in grandchildren.into_iter().flatten() {
+            manager.drop_edge(edge);
+        }
         // Remember the "old" children of `e` that are on the old lower level.
         // (A child might also be at some lower level, in which case the node
         // could also be removed. However we must not access such a node.)
